@@ -134,9 +134,9 @@ def closure(rel):
             continue
         seen.append(r)
         txt = open(os.path.join(COQ, r)).read()
-        for m in re.finditer(r"From\s+IPV8V\s+Require\s+(?:Import|Export)?\s*([^.]*(?:\.[A-Za-z_][^.\s]*)*)\.", txt):
+        for m in re.finditer(r"From\s+IPV8V\s+Require\s+(?:Import\s+|Export\s+)?(.*?)\.(?=\s|$)", txt, re.S):
             for mod in m.group(1).split():
-                if re.fullmatch(r"[A-Za-z_][\w]*(\.[A-Za-z_][\w]*)+", mod):
+                if re.fullmatch(r"[A-Za-z_]\w*(\.[A-Za-z_]\w*)+", mod):
                     todo.append(mod.replace(".", "/") + ".v")
     return seen
 
